@@ -252,6 +252,8 @@ def post_ensure(args, kwargs, res, exc):
                        f"extra={sorted(keys - lv[n])[:4]} missing={sorted(lv[n] - keys)[:4]}", known_for([raw]))
                 break
         CTX.ev()
+        CTX.seen("level-cache states observed at the hook (basis, level sizes, which levels are compacted)",
+                 (avmodel.key_of(raw), tuple(len(l) for l in cache), tuple(all(v is None for v in l.values()) for l in cache)))
         if len(cache) <= args[1]:
             report(f"_ensure_level({args[1]}) left only {len(cache)} levels")
     except (AttributeError, TypeError) as err:  # representation changed: hook not applicable
